@@ -261,6 +261,61 @@ fn conditional_family(ctx: &Ctx, thorough: bool, fam: &str, pa: &Program, pb: &P
             });
         }
     });
+    // verifier data selected by index out of a constant list (`random_access_verifier_data` over
+    // `constant_verifier_data`), then one verification: accepted <=> the proof is valid for list[index]
+    for (ltag, list) in [("AB", vec![0usize, 1]), ("ABBA", vec![0, 1, 1, 0])] {
+        let vos = [&sa.built.data.verifier_only, &sb.built.data.verifier_only];
+        let built = guarded(|| {
+            let mut builder = CircuitBuilder::<F, D>::new(outer_cfg.clone());
+            let idx = builder.add_virtual_target();
+            let pt = builder.add_virtual_proof_with_pis(&common);
+            let vds: Vec<VerifierCircuitTarget> = list.iter().map(|&k| builder.constant_verifier_data::<PC>(vos[k])).collect();
+            let vd = builder.random_access_verifier_data(idx, vds);
+            builder.verify_proof::<PC>(&pt, &vd, &common);
+            builder.register_public_input(idx);
+            let data = builder.build::<PC>();
+            (data, idx, pt)
+        });
+        let Ok((data, idx, pt)) = built else {
+            ctx.machinery_error(format!("indexed-verifier-data outer circuit{fam} ({ltag}) does not build"));
+            continue;
+        };
+        let sc = sat_prepare(&data);
+        ctx.state(1);
+        let mut cases: Vec<(u64, bool, usize)> = Vec::new(); // index, proof from B?, variant
+        for i in 0..=list.len() as u64 {
+            for (from_b, vs) in [(false, &va), (true, &vb)] {
+                for v in 0..vs.len().min(if thorough { vs.len() } else { 6 }) {
+                    cases.push((i, from_b, v));
+                }
+            }
+        }
+        par_for_chunk(cases.len(), 4, |k| {
+            let (i, from_b, vi) = cases[k];
+            let v = if from_b { &vb[vi] } else { &va[vi] };
+            let case = format!("indexed-vd{fam} list={ltag} index={i} proof={}{}", if from_b { "B:" } else { "A:" }, v.name);
+            ctx.case(&format!("indexed-verifier-data{fam}"), &case, || {
+                ctx.transition(1);
+                let expect = (i as usize) < list.len() && native(&common, vos[list[i as usize]], &v.proof);
+                let pw = guarded(|| {
+                    let mut pw = PartialWitness::new();
+                    pw.set_target(idx, fe(i))?;
+                    pw.set_proof_with_pis_target(&pt, &v.proof)?;
+                    Ok::<_, anyhow::Error>(pw)
+                });
+                let got = match pw {
+                    Ok(Ok(pw)) => accepts(&data, &sc, pw),
+                    _ => Err("assign".to_string()),
+                };
+                match (expect, &got) {
+                    (true, Ok(_)) => Ok("indexed-vd:accepted".into()),
+                    (false, Err(e)) => Ok(format!("indexed-vd:rejected:{}", reason(e))),
+                    (true, Err(e)) => Err(format!("the proof is valid for list[{i}] but the circuit rejects: {e}")),
+                    (false, Ok(_)) => Err(format!("the proof is NOT valid for list[{i}] (or the index is out of range) but the derived assignment satisfies the circuit")),
+                }
+            });
+        });
+    }
     // _or_dummy variant (dummy circuits cannot be built for shapes with lookup tables: plain family only)
     if lookups {
         return;
